@@ -25,6 +25,18 @@
 
 
 
+#include <cassert>
+
+
+
+#include <xalanc/PlatformSupport/PrefixResolver.hpp>
+
+
+
+#include <xalanc/XPath/XalanQName.hpp>
+
+
+
 namespace XALAN_CPP_NAMESPACE {
 
 
@@ -44,23 +56,63 @@ class KeyDeclaration
 {
 public:
 
+    typedef XalanQName::NamespaceVectorType     NamespaceVectorType;
+
+    /**
+     * Resolves prefixes with the namespace declarations that are in scope
+     * for the "xsl:key" element.  The match pattern and the use expression
+     * must be evaluated with this resolver, because some QNames in them are
+     * only expanded when the expression is evaluated (the format name of
+     * format-number(), the argument of function-available()...)
+     */
+    class PrefixResolverProxy : public PrefixResolver
+    {
+    public:
+
+        PrefixResolverProxy(const KeyDeclaration&   theDeclaration) :
+            PrefixResolver(),
+            m_declaration(theDeclaration)
+        {
+            assert(theDeclaration.m_namespaces != 0 && theDeclaration.m_uri != 0);
+        }
+
+        virtual const XalanDOMString*
+        getNamespaceForPrefix(const XalanDOMString&     prefix) const
+        {
+            return XalanQName::getNamespaceForPrefix(*m_declaration.m_namespaces, prefix);
+        }
+
+        virtual const XalanDOMString&
+        getURI() const
+        {
+            return *m_declaration.m_uri;
+        }
+
+    private:
+
+        const KeyDeclaration&   m_declaration;
+    };
+
     /**
      * Construct an object containing attributes of an "xsl:key" element
      * 
      * @param qname name of element
      * @param matchPattern XPath for "match" attribute
      * @param use XPath for "use" attribute
+     * @param namespaces the namespace declarations in scope for the element.  Only a pointer is kept.
      */
     KeyDeclaration(
             const XalanQName&           qname,
             const XPath&                matchPattern,
             const XPath&                use,
+            const NamespaceVectorType&  namespaces,
             const XalanDOMString&       uri,
             XalanFileLoc                lineNumber,
             XalanFileLoc                columnNumber) :
         m_qname(&qname),
         m_match(&matchPattern),
         m_use(&use),
+        m_namespaces(&namespaces),
         m_uri(&uri),
         m_lineNumber(lineNumber),
         m_columnNumber(columnNumber)
@@ -72,6 +124,7 @@ public:
         m_qname(0),
         m_match(0),
         m_use(0),
+        m_namespaces(0),
         m_uri(0),
         m_lineNumber(0),
         m_columnNumber(0)
@@ -81,7 +134,11 @@ public:
     KeyDeclaration(const KeyDeclaration&    theSource) :
         m_qname(theSource.m_qname),
         m_match(theSource.m_match),
-        m_use(theSource.m_use)
+        m_use(theSource.m_use),
+        m_namespaces(theSource.m_namespaces),
+        m_uri(theSource.m_uri),
+        m_lineNumber(theSource.m_lineNumber),
+        m_columnNumber(theSource.m_columnNumber)
     {
     }
 
@@ -162,6 +219,8 @@ private:
     const XPath*                m_match;
 
     const XPath*                m_use;
+
+    const NamespaceVectorType*  m_namespaces;
 
     const XalanDOMString*       m_uri;
 
